@@ -2,7 +2,7 @@
 dmax exact/slack/unterminated, six delimiter sets; thorough: per-call delimiter choice, BFS on states)."""
 import os, sys, json, time, subprocess
 from concurrent.futures import ThreadPoolExecutor
-from . import vbuild, common
+from . import vbuild, common, crosspass
 ROOT = common.ROOT
 BIN = os.path.join(ROOT, "build", "seq", "c14")
 SRC = [os.path.join(ROOT, "engine", "seq", "c14.c")]
@@ -46,6 +46,11 @@ def run(tier, deadline):
                 if o["t"] == "viol": e = viol.setdefault(o["sig"], [0, o["case"], v]); e[0] += o["n"]
                 elif o["t"] == "stat":
                     for k in tot: tot[k] += o[k]
+    # borrowed passes: the tokenizers' macros in a client built from the public headers (each argument evaluated once), and no footprint in static storage
+    xv, xn, xi = crosspass.hdr("C14", lambda n: n in ("strtok_s", "wcstok_s"), tier); internal += xi
+    fv, fn_, fi = crosspass.footprint("C14", ["strtok_s", "wcstok_s"], tier, deadline - (time.time() - t0)); internal += fi
+    ov, on_, oi = crosspass.op_footprint("C14", ("strtok",), tier); internal += oi
+    for sig, case, n in xv + fv + ov: e = viol.setdefault(sig, [0, case, "prod"]); e[0] += n
     if internal:
         for m in internal[:10]: print("INTERNAL-ERROR:", m, file=sys.stderr)
         return 2
@@ -61,6 +66,7 @@ def run(tier, deadline):
 
 
 def replay(kv, quiet=False):
+    if crosspass.is_cross(kv["case"]): return crosspass.replay(kv, quiet)
     build(); c = kv["case"].split()
     r = subprocess.run([BIN, "replay"] + c, capture_output=True, text=True, errors="replace", env=dict(os.environ, CAT_LIB=vbuild.build(kv.get("variant", "prod"))))
     if not quiet: sys.stdout.write(r.stdout); sys.stderr.write(r.stderr)
